@@ -264,6 +264,7 @@ Section Sound.
   Definition op_ok (g : cfg) (o : @sop D) : Prop :=
     match o with
     | OUpload _ _ _ f d => U f /\ derive (g_ver g) (f_bytes f) = Some d
+    | OUploadFail _ _ f => U f
     | OCreate _ items => Forall (item_ok g) items
     | _ => True
     end.
@@ -334,7 +335,7 @@ Section Sound.
     let '(a', fs') := spec_op derive g o (s_files (r_st r)) in
     a = a' /\ s_files (r_st r') = fs' /\ st_ok (r_st r').
   Proof.
-    intros g lk o r Hm Ho [Hf Hs]. destruct o as [obj c h|c|obj c h f d|c items|c h c2 h2|c h|c]; cbn [exec_op spec_op].
+    intros g lk o r Hm Ho [Hf Hs]. destruct o as [obj c h|c|obj c h f d|c h f|c items|c h c2 h2|c h|c]; cbn [exec_op spec_op].
     - unfold exec_get, get. cbn [r_st r_cleaned].
       destruct (get_at_correct g lk (is_cleaned (r_cleaned r) obj) _ _ _ c h Hm Hf Hs Hs) as [Hr Hc].
       rewrite Hr. repeat split; assumption.
@@ -345,6 +346,7 @@ Section Sound.
       rewrite Hr. split; [|split; [reflexivity|split; [exact Hf'|exact Hc]]].
       cbn [upload_write s_files]. rewrite flook_aput.
       rewrite (proj2 (fkey_eqb_spec (c, h) (c, h)) eq_refl). reflexivity.
+    - split; [reflexivity | split; [reflexivity | split; cbn [r_st s_files s_cache]; auto using files_in_aput]].
     - destruct (create_collection_ok g (r_st r) c items (conj Hf Hs) Ho) as [Hf' Hs'].
       repeat split; assumption.
     - unfold move_item. destruct (flook (s_files (r_st r)) c h) as [f|] eqn:Ef.
